@@ -266,7 +266,9 @@ pub fn run(tier: &str, seed: i64) -> Outcome {
                 }
                 REACHED.lock().ok().and_then(|r| r.iter().find(|(kk, route)| kk == k && hash_by_route(route).ok().flatten() == Some(w[0].0)).map(|x| x.1.clone())).unwrap_or_else(|| text.to_string())
             };
-            let (ra, rb) = (route(&w[0].1, &a), route(&w[1].1, &b));
+            // the provenance search is expensive (a scan of the reached list with a replay per candidate): done for
+            // the first collisions only, the rest are reported with their positions alone
+            let (ra, rb) = if collisions <= 40 { (route(&w[0].1, &a), route(&w[1].1, &b)) } else { (a.clone(), b.clone()) };
             acc.violation(format!("collision|{}|{}", a, b), format!("two distinct positions share the hash {:X}: {} [reached as: {}] and {} [reached as: {}]", w[0].0, a, ra, b, rb), json::obj(vec![("kind", json::s("c05-collision")), ("a", json::s(ra)), ("b", json::s(rb)), ("a_position", json::s(a.clone())), ("b_position", json::s(b.clone()))]));
         }
     }
